@@ -20,7 +20,7 @@ ID = 'C12'
 LEVEL = 'exploration'
 DEBUG_TOGGLE = True  # runner flips the library debug flag every 97 monitored executions
 TECHNIQUE = 'runtime monitoring: reference-model monitor (one reference per built-in reward/termination component, own BFS for the shortest-path variant) on arbitrary and real triples; spies on GridWorld reward/termination arguments; recording wrappers on the reach_exit parts relating exit reward to exit termination per step'
-LEVEL_TEXT = ('Every built-in reward and termination component, built through the real factory with random float parameters, '
+LEVEL_TEXT = ('Every built-in reward and termination component, built by name with random float parameters (incl. exactly 0.0) both by an independent interpreter and by the library\'s configuration factory, '
               'is evaluated next to a reference written from its docstring on arbitrary triples (next state unrelated) and real '
               'triples (next state from the real dynamics), twice each (determinism); composites are compared with the '
               'sum / any / all of their separately evaluated parts; inside GridWorld.functional_step spies assert that reward '
@@ -103,6 +103,15 @@ def component_checks(ctx, comp, types, triples):
             continue
         ref = refmodel.ref_reward if kind == 'reward' else refmodel.ref_terminating
         composite = spec['name'] in ('reduce_sum', 'reduce_any', 'reduce_all')
+        # the same component as the library's own configuration factory builds it (parameters travel through
+        # select_kwargs / the schemas there: falsy values such as 0.0 have to arrive like any other)
+        import copy as _copy
+        from gym_gridverse.envs.yaml import factory as yaml_factory
+        okf, ffn = call_real(yaml_factory.factory_reward_function if kind == 'reward' else yaml_factory.factory_terminating_function,
+                             _copy.deepcopy(spec))
+        if not okf:
+            ctx.add('factory_build_refused')  # which specs build is C17's business
+            ffn = None
         for (s, a, ns, real) in triples:
             payload = {'kind': kind, 'spec': spec, 'state': enc.state_to_json(s), 'action': a.name,
                        'next_state': enc.state_to_json(ns)}
@@ -131,6 +140,13 @@ def component_checks(ctx, comp, types, triples):
                 ctx.violation('component', f'value.{kind}.{spec["name"]}',
                               f'{kind} {spec} returned {v1!r}, documented value {want!r}; agent {enc.ea(s.agent)} -> '
                               f'{enc.ea(ns.agent)} action {a.name}', 'triple', payload)
+            if ffn is not None:
+                okv, vf = call_real(ffn, s, a, ns)
+                ctx.hit('factory_built.evals')
+                if okv and not close(vf, want):
+                    ctx.violation('component', f'value.factory_built.{kind}.{spec["name"]}',
+                                  f'{kind} {spec} built by the configuration factory returned {vf!r}, documented value {want!r}',
+                                  'triple', payload)
             if composite:
                 parts_key = 'reward_functions' if kind == 'reward' else 'terminating_functions'
                 vals = []
